@@ -27,6 +27,10 @@ spec fn queue_ok<V>(n: NfaBuilder<u8, V>, q: Seq<u32>) -> bool {
 spec fn fail_suffix<V>(n: NfaBuilder<u8, V>) -> bool {
     forall|s: int| 2 <= s < n.states@.len() ==> ({ let f = (#[trigger] n.states@[s]).fail as int; f == 1 || (0 <= f < n.states@.len() && is_suffix(path(n, f), path(n, s))) })
 }
+// leftmost fail links: dead, or (as for the standard kind) the state of the longest proper suffix of the path that is a trie node
+spec fn lm_fail_ok<V>(n: NfaBuilder<u8, V>) -> bool {
+    forall|s: int| 2 <= s < n.states@.len() ==> ((#[trigger] n.states@[s]).fail == 1 || fail_ok(n, s, n.states@[s].fail as int))
+}
 // the record r carries the value and the byte length registered for pattern q
 spec fn rec_of<V>(n: NfaBuilder<u8, V>, q: Seq<u8>, r: Output<V>) -> bool {
     is_registered(n, q) && r.value == reg_out(n, q).unwrap().0 && r.length == reg_out(n, q).unwrap().1@
